@@ -954,17 +954,24 @@ def c14_model(Tb, vb, classes, Tm, hyp=None):
     return mus, S, np.array(sc)
 
 
-def _c14_attack(scn, scared, storage, Tb, vb, tag='build'):
+def _c14_attack(scn, scared, storage, Tb, vb, tag='build', like=None):
+    """like = another attack object: the new one is created on the SAME building Container, reverse selection function and model objects."""
     classes = None if scn['auto'] else list(scn['classes'])
     k = len(scn['classes'])
-    ths = make_ths(storage, Tb, {'value': vb[:, None].copy()}, tag)
-    rsf = scared.reverse_selection_function(kinds._value_sf)
+    if like is None:
+        cont = scared.Container(make_ths(storage, Tb, {'value': vb[:, None].copy()}, tag))
+        rsf = scared.reverse_selection_function(kinds._value_sf)
+        model = scared.Value()
+    else:
+        cont, rsf, model = like.container_building, like._c14_rsf, like.model
     if scn['kind'] == 'tstatic':
-        return scared.TemplateAttack(container_building=scared.Container(ths), reverse_selection_function=rsf, model=scared.Value(),
-                                     partitions=classes, precision=scn['precision'])
-    asf = scared.attack_selection_function(kinds._make_leak_sf(list(scn['classes']), scn.get('vdtype') or 'uint8'), guesses=range(k), words=0)
-    return scared.TemplateDPAAttack(container_building=scared.Container(ths), reverse_selection_function=rsf, selection_function=asf,
-                                    model=scared.Value(), partitions=classes, precision=scn['precision'])
+        a = scared.TemplateAttack(container_building=cont, reverse_selection_function=rsf, model=model, partitions=classes, precision=scn['precision'])
+    else:
+        asf = scared.attack_selection_function(kinds._make_leak_sf(list(scn['classes']), scn.get('vdtype') or 'uint8'), guesses=range(k), words=0)
+        a = scared.TemplateDPAAttack(container_building=cont, reverse_selection_function=rsf, selection_function=asf,
+                                     model=model, partitions=classes, precision=scn['precision'])
+    a._c14_rsf = rsf
+    return a
 
 
 def execute_c14(scn):
@@ -981,6 +988,7 @@ def execute_c14(scn):
     tol = compare.tol_for(prec, independent=True)
     sig_tail = [kind, scn['style']]
     c14_faults = {}
+    failed_sibling = None
 
     def mk_container(lo, hi, tag):
         if kind == 'tstatic':
@@ -1034,6 +1042,7 @@ def execute_c14(scn):
                                          'build() failed on batch %d, yet run() was accepted' % scn['build_fault'])
                     except Exception:
                         probes['refused_after_failed_build'] = 1
+                        failed_sibling = att_f
         if violation is None:
             try:
                 att.build()
@@ -1053,6 +1062,19 @@ def execute_c14(scn):
             elif not compare.close(att.pooled_covariance, S, tol):
                 violation = viol('covariance_differs_from_model', ['C14', 'covariance_differs_from_model'] + sig_tail,
                                  'maxdiff=%s got=%s want=%s' % (compare.maxdiff(att.pooled_covariance, S), compare.describe(att.pooled_covariance), compare.describe(S)))
+        if violation is None and failed_sibling is not None:
+            # a NEW attack object created on the same building Container / selection function / model objects as the one whose build failed:
+            # objects are independent, its profile must be that of the building set alone
+            try:
+                sib = _c14_attack(scn, scared, storage, Tb, vb, like=failed_sibling)
+                sib.build()
+                probes['sibling_after_failed_build'] = 1
+                if not (compare.close(np.asarray(sib.templates)[popm], mus[popm], tol) and compare.close(sib.pooled_covariance, S, tol)):
+                    violation = viol('sibling_profile_differs_from_model', ['C14', 'sibling_profile_differs_from_model'] + sig_tail,
+                                     'attack created on the container of a failed build: templates maxdiff=%s covariance maxdiff=%s' % (
+                                         compare.maxdiff(np.asarray(sib.templates)[popm], mus[popm]), compare.maxdiff(sib.pooled_covariance, S)))
+            except Exception as e:
+                violation = viol('build_raised', ['C14', 'build_raised'] + sig_tail + [type(e).__name__, 'sibling'], 'build() of a sibling attack raised %r' % (e,))
         if violation is None:
             # the same building set under another batch rule: templates / covariance bitwise (exact accumulators)
             scared.set_batch_size(scn['build_rule_2'])
